@@ -27,10 +27,10 @@ def run(ctx):
     exe = T.prove_and_build(ctx, 'C05')
 
     def on_verdict(v, c, p, o):
-        ctx.violation('an (exception, set) pair was rethrown twice, or a wait()/tryWait(k) returned normally / true having observed completion while a captured exception of the set was still pending (not rethrown by the call that had to deliver it): %s -> %s' % (T.case_line(c)[:300], o[:400]),
+        ctx.violation('an (exception, set) pair was rethrown twice, or the exception of a queued task was lost (the next wait returned normally and nobody was ever handed one), or a wait()/tryWait(k) returned normally / true having observed completion while a captured exception of the set was still pending (not rethrown by the call that had to deliver it): %s -> %s' % (T.case_line(c)[:300], o[:400]),
                       {'case': T.case_line(c), 'output': o, 'cmd': 'echo "<case>" | build/harness/h_taskset-*'})
     # deterministic probe family first: tasks throw, everything finishes, then tryWait(0) / tryWait(1) / tryWait(large) / wait() in each order, TaskSet and both ConcurrentTaskSet kinds
-    probes = T.exc_probes()
+    probes = T.exc_probes() + T.exc_after_cancel_probes() + T.exc_barrier_probes()
     ctx.cov['probe_cases'] = len(probes)
     res = T.lockstep_phase(ctx, exe, 'judge_C05', ['exc', 'exc', 'exc', 'mixed'], 80 if ctx.quick else 3000, witnesses=probes, on_verdict=on_verdict)
     ctx.cov['side_observations'] = [SIDE_OBSERVATION]
